@@ -89,7 +89,13 @@ class DepSet(boolean.AndRestriction, caching=False):
                     if not depsets[-1] or not raw_conditionals:
                         raise DepsetParseError(dep_str, attr=attr)
                     elif raw_conditionals[-1] in operators:
-                        if len(depsets[-1]) == 1:
+                        # a group of one element is that element, except for
+                        # at-most-one-of where it is always satisfied.
+                        if len(depsets[-1]) == 1 and getattr(
+                            operators[raw_conditionals[-1]],
+                            "_evaluate_collapse_single",
+                            True,
+                        ):
                             depsets[-2].append(depsets[-1][0])
                         else:
                             depsets[-2].append(
@@ -314,6 +320,12 @@ def _internal_stringify_boolean(
 
     if isinstance(node, boolean.OrRestriction):
         visit("|| (")
+        iterable = node.restrictions
+    elif isinstance(node, boolean.JustOneRestriction):
+        visit("^^ (")
+        iterable = node.restrictions
+    elif isinstance(node, boolean.AtMostOneOfRestriction):
+        visit("?? (")
         iterable = node.restrictions
     elif isinstance(node, boolean.AndRestriction) and not isinstance(node, atom):
         visit("(")
